@@ -276,10 +276,53 @@ func c14Run(c *lib.Ctx, scaleDown bool) {
 			}
 			c.Feat("savepoints_folded_into_pending_checkpoint", 1)
 		}
+		// half of the folded savepoints are then overtaken: the write of the checkpoint's job snapshot is held while
+		// the next periodic checkpoint completes and is published
+		wRelease := make(chan struct{})
+		wHeld := make(chan struct{})
+		overtakeFolded := err == nil && r.Intn(2) == 0
+		if overtakeFolded {
+			var wOnce sync.Once
+			x.cl.Loc.HoldWrite = func(path string) {
+				if filepath.Ext(path) == ".snapshot" {
+					first := false
+					wOnce.Do(func() { first = true })
+					if first {
+						close(wHeld)
+						<-wRelease
+					}
+				}
+			}
+		}
 		x.cl.Lock()
 		x.cl.HoldOpAck = nil
 		x.cl.Unlock()
 		close(release)
+		if overtakeFolded {
+			select {
+			case <-wHeld:
+				x.src.SetLimit(min(o.perSplit, p1+2+r.Intn(6)))
+				x.waitCaughtUp()
+				for dl := time.Now().Add(5 * time.Second); time.Now().Before(dl); {
+					x.cl.TickCheckpoint()
+					done := false
+					for _, p := range x.cl.PublishedSnapshots() {
+						if sn, e2 := x.cl.ReadSnapshot(p); e2 == nil && sn.Id > spID {
+							done = true
+						}
+					}
+					if done {
+						x.logf("the folded savepoint's checkpoint %d was overtaken: a later checkpoint was published while its snapshot write was in flight", spID)
+						c.Feat("folded_savepoint_overtaken_by_next_checkpoint", 1)
+						break
+					}
+					time.Sleep(300 * time.Microsecond)
+				}
+			case <-time.After(5 * time.Second):
+			}
+			x.cl.Loc.HoldWrite = nil
+			close(wRelease)
+		}
 	}
 	if err != nil {
 		c.Fail("savepoint-request-error", x.wit(), "HandleCreateSavepoint: %v", err)
